@@ -1189,6 +1189,19 @@ def fixed_cases():
         ("A9b", 'fn g() -> int { loop { } }\nfn h() { throw("x"); }\nfn main() { h(); println(g()); }\n', False, "same, other order"),
         ("A10", "fn main() { let b = print == println; println(b); }\n", False, "comparison of two variadic functions"),
         ("A10b", "fn main() { let f = if true { print } else { fmt }; f(\"x\"); }\n", True, "branches of different variadic function types"),
+        # type definitions are scoped like variables: the innermost declaration of a name is the one in force
+        ("type-shadow-ok", 'type T = int;\nfn main() { { type T = str; let x: T = "hello"; println(x); } let y: T = 1; println(y); }\n', False,
+         "a type name re-declared in a nested block shadows the outer one there and only there"),
+        ("type-shadow-bad", 'type T = int;\nfn main() { { type T = str; let x: T = 42; println(x); } }\n', True,
+         "value of the outer type under the inner declaration of the name"),
+        ("type-shadow-after", 'type T = int;\nfn main() { { type T = str; let x: T = "a"; println(x); } let y: T = "s"; println(y); }\n', True,
+         "after the nested block the outer declaration is in force again"),
+        ("type-shadow-lambda", 'type T = int;\nfn main() { let f = fn() -> str { type T = str; let x: T = "a"; x }; println(f()); let y: T = 2; println(y); }\n', False,
+         "a type name re-declared in a function literal"),
+        ("type-shadow-param", 'type T = int;\nfn main() { { type T = [str]; let f = fn(a: T) -> int { a.len() }; println(f(["x"])); } }\n', False,
+         "parameter annotation under the inner declaration"),
+        ("type-alias-chain", 'type A = int;\ntype B = [A];\nfn main() { let b: B = [1, 2]; let c: B = ["x"]; println(b, c); }\n', True,
+         "alias of an alias: wrong element type"),
         ("main-missing", "fn f() { }\n", True, "no main"),
         ("main-ok", "fn main() { }\n", False, "empty main"),
         ("empty-match", "fn main() { let y: int = match 1 { }; println(y); }\n", True, "match without arms has no value"),
